@@ -277,6 +277,30 @@ CLAIMED["C18"] = (
     COMMON_NOTE + "Builtins are verified with callees opaque (opt inline=off); the user-supplied key/lambda is arbitrary code.",
     "contract-based deductive verification (call-site obligations on the interpreter's assertion points, type-switch postconditions + SMT)", "6/C18")
 
+CLAIMED["C08"] = (
+    "Proof of the necessary half of the statement: when ruleHash returns, the value of each build-relevant attribute has been written to "
+    "the hash — the label, every declared dependency, declared hash, source, output, optional output, label, secret, requirement and output "
+    "directory (one loop invariant per list, over a monotone ghost SET of the strings written), every pass_env name and its value, the "
+    "command, the file content, and (through hashMap, proved to write every key=value entry of its argument) the entry points and the env. "
+    "NOT proved, and false: that different attribute values always give different streams — writes are concatenated without separators or field "
+    "tags, so Labels [ab c] / [a bc], or the string x as a label vs as a secret, collide; demonstrated against the real code "
+    "(findings/C08) and recorded as a known finding that no obligation here can express. Bool attributes, named outputs, provides, licences, "
+    "visibility and the runtime-only fields are not under contract.",
+    COMMON_NOTE + "hash.Hash.Write is opaque; what is tracked is the set of byte strings passed to it (string([]byte(s)) == s is an axiom of "
+    "the conversion model); accessors of the target are assumed pure; os.Getenv is a function of its argument.",
+    "contract-based deductive verification (monotone ghost set of hashed strings, loop invariants, map-iteration invariant + SMT)", "6/C08")
+
+CLAIMED["C10"] = (
+    "Proof that every read of the process environment on the way to a build environment names a variable listed for that purpose: in "
+    "TargetEnvironment each os.Getenv argument is an element of the target's pass_env / pass_unsafe_env; in Configuration.getBuildEnv each "
+    "os.LookupEnv argument is an element of the list handed to its helper, and the helper is only handed config.Build.PassEnv or (when asked) "
+    "PassUnsafeEnv; BuildEnvironment and GeneralBuildEnvironment read no environment variable at all; os.Environ is never consulted in any of "
+    "them; and every pass_env name and value is fed to the rule hash (ruleHash#post:pass_env), so changing one changes the hash. Kernel-only: "
+    "that the child process receives exactly this environment (exec.Cmd.Env, the sandbox tool) and that outputs do not depend on other "
+    "variables is process execution, outside any contract; test/run/exec environments are not under contract.",
+    COMMON_NOTE + "Callees without contracts are opaque (opt inline=off); call-site clauses may use the index of the enclosing range loop.",
+    "contract-based deductive verification (call-site obligations on environment reads + SMT)", "6/C10")
+
 NOT_APPLICABLE = {
     "C05": "liveness / whole-run exit status under all schedules: no per-call contract expresses it (safety fragment is under C04)",
     "C30": "OS process groups, signals and wall-clock bounds; goroutines and select are outside the sequential contract model",
